@@ -1,6 +1,7 @@
 import Driver.Expr
 import Driver.Flow
 import Driver.Riscv
+import Driver.Msp430
 import Driver.Cond
 import Driver.Sym
 import Driver.TwoPass
@@ -16,6 +17,12 @@ import Driver.Macro
 import Driver.Link
 import Driver.Reader
 
+/-- instruction-level commands: dispatch on the CPU name (first argument) -/
+def isa (cmd : String) (args : List String) : String :=
+  match args with
+  | "msp430" :: _ => Driver.Msp430.handle cmd args
+  | _ => Driver.Riscv.handle cmd args
+
 def dispatch (line : String) : String :=
   match (line.trimAscii.toString.splitOn " ").filter (· ≠ "") with
   | "expr" :: args => Driver.Expr.handle args
@@ -23,10 +30,10 @@ def dispatch (line : String) : String :=
   | "expr32" :: args => Driver.Expr.handle32 args
   | "asmret" :: args => Driver.Flow.handleAsmRet args
   | "mainflow" :: args => Driver.Flow.handleMain args
-  | "asm1" :: args => Driver.Riscv.handle "asm1" args
-  | "dis" :: args => Driver.Riscv.handle "dis" args
-  | "walk" :: args => Driver.Riscv.handle "walk" args
-  | "rt" :: args => Driver.Riscv.handle "rt" args
+  | "asm1" :: args => isa "asm1" args
+  | "dis" :: args => isa "dis" args
+  | "walk" :: args => isa "walk" args
+  | "rt" :: args => isa "rt" args
   | "cond" :: args => Driver.Cond.handle args
   | "skip" :: args => Driver.Cond.handleSkip args
   | "evop" :: args => Driver.Cond.handleEvop args
